@@ -36,7 +36,29 @@ pub fn mutate_text(s: &str, src: &mut Src) -> (String, String) {
             _ => src.below(n + 1),
         }
     };
-    match src.below(9) {
+    match src.below(10) {
+        9 => {
+            // one line loses its last one to three characters (a closing delimiter, the end of a code)
+            let lines: Vec<&str> = s.split('\n').collect();
+            if lines.is_empty() {
+                return (String::new(), "noop".into());
+            }
+            let i = src.below(lines.len());
+            let k = 1 + src.below(3);
+            let out: Vec<String> = lines
+                .iter()
+                .enumerate()
+                .map(|(j, l)| {
+                    if j == i {
+                        let cs: Vec<char> = l.chars().collect();
+                        cs[..cs.len().saturating_sub(k)].iter().collect()
+                    } else {
+                        l.to_string()
+                    }
+                })
+                .collect();
+            (out.join("\n"), "line-end-cut".into())
+        }
         0 => {
             let p = pos(src);
             (cs[..p].iter().collect(), "truncate".into())
@@ -105,8 +127,13 @@ pub fn generate(shard: usize, src: &mut Src) -> TotalCase {
             let e = gen_env(mt, src);
             let mut text = e.text();
             if src.flip() {
-                // a richer body than the minimal one
-                let m = gen_valid_msg(mt, src);
+                // a richer body than the minimal one; half of those with rule-relevant contents (code
+                // words, codes with narrative) so that the validation paths see their own vocabulary
+                let m = if src.flip() {
+                    crate::props::c04::gen_rule_msg(mt, src)
+                } else {
+                    gen_valid_msg(mt, src)
+                };
                 let body: String = m
                     .fields
                     .iter()
@@ -124,7 +151,11 @@ pub fn generate(shard: usize, src: &mut Src) -> TotalCase {
         }
         3 | 4 => {
             let mt = mt_of_shard(shard);
-            let m = gen_valid_msg(mt, src);
+            let m = if src.flip() {
+                crate::props::c04::gen_rule_msg(mt, src)
+            } else {
+                gen_valid_msg(mt, src)
+            };
             let (t, mu) = mutate_text(&m.text(src.flip(), src.flip()), src);
             TotalCase {
                 kind: "block4".into(),
@@ -650,7 +681,7 @@ fn scaling(ctx: &Ctx, obs: &mut Obs) -> Vec<Violation> {
 }
 
 pub fn run(ctx: &Ctx) {
-    ctx.add_rule("valid messages / block-4 texts / field contents / headers / message JSON of all types with one text mutation (truncation, insertion or replacement of ASCII structure characters and 2-, 3-, 4-byte characters at boundary and random offsets, range deletion/duplication, structural soup) given to every public entry point (parse_auto, parse::<T>, parse_with_errors, extract_block 0..6, parse_from_block4, legacy field map + tracker + sequences, 114 field parsers with and without variant, 4 header parsers, from_value + serialisation + Display, the 3 text-taking plugin functions) and, on every value obtained, to serialisation, validation, JSON conversion; on every error, to all renderings; plus size-scaling families up to 200 KB (1 MB in thorough), whose errors are rendered too; oracle: catch_unwind => no panic; non-trivial = input longer than one character; distinct by (entry kind, target, input)");
+    ctx.add_rule("valid messages / block-4 texts / field contents / headers / message JSON of all types with one text mutation (truncation, insertion or replacement of ASCII structure characters and 2-, 3-, 4-byte characters at boundary and random offsets, range deletion/duplication, one line cut short at its end, structural soup; half of the richer bodies carry rule-relevant contents) given to every public entry point (parse_auto, parse::<T>, parse_with_errors, extract_block 0..6, parse_from_block4, legacy field map + tracker + sequences, 114 field parsers with and without variant, 4 header parsers, from_value + serialisation + Display, the 3 text-taking plugin functions) and, on every value obtained, to serialisation, validation, JSON conversion; on every error, to all renderings; plus size-scaling families up to 200 KB (1 MB in thorough), whose errors are rendered too; oracle: catch_unwind => no panic; non-trivial = input longer than one character; distinct by (entry kind, target, input)");
     ctx.assume("panic signature = (panic kind, innermost library frame from the symbolised backtrace), line numbers excluded");
     ctx.assume("time: only gross super-quadratic growth is judged (16 KB within 60 s, doubling ratio <= 12 when above 0.5 s)");
     ctx.assume(&format!("non-termination: one case (input of at most a few KB) that keeps an entry point busy for {} s is a violation; such cases otherwise take micro- to milliseconds", hang_limit_s()));
